@@ -927,6 +927,7 @@ func (x *Exec) ownedChans(st *State, heap map[string]*Term) []*Term {
 		}
 	}
 	out = append(out, st.FreshList...)
+	out = append(out, st.Owned...)
 	return out
 }
 
